@@ -90,6 +90,7 @@ type Exec struct {
 	notes         map[string]bool // assumptions / unsupported features encountered
 	counts        map[string]int  // for obligation naming
 	depth         int
+	curCall       ssa.Instruction             // the call instruction being executed (for frames inlined at it)
 	ifaces        map[string]*types.Interface // interfaces asserted against
 	lockMode      bool
 	private       []Term // refs of non-escaping local cells (all frames)
@@ -119,6 +120,9 @@ type frame struct {
 	params       []Term
 	results      []Term // at exit (merged)
 	exit         *State
+	outer        *frame          // the frame this one is inlined into
+	callBlock    *ssa.BasicBlock // ... and the call it was inlined at
+	callInstr    ssa.Instruction
 	loopInfo     map[*ssa.BasicBlock]*loopInfo
 	rangeMap     map[ssa.Value]ssa.Value // Range value -> ranged collection
 	namedResults []*ssa.Alloc
@@ -873,6 +877,10 @@ func (ex *Exec) runBody(f *frame, entry *State, params []Term) {
 			default:
 				if f.contract != nil && !f.inline && len(f.contract.Sites) > 0 {
 					ex.siteAsserts(f, st, b, ins)
+				} else if f.inline && f.contract == nil && f.outer != nil && !f.outer.inline && f.outer.contract != nil && f.callInstr != nil && shapeNewFuncs[funcName(f.fn)] {
+					// statements that were extracted into a new private helper (new since the contracts were written,
+					// without a contract of its own) keep the site assertions of the function they were taken from
+					ex.siteAssertsIn(f.outer, f, st, b, ins)
 				}
 				ex.step(f, st, ins)
 			}
@@ -975,6 +983,17 @@ func (ex *Exec) runBody(f *frame, entry *State, params []Term) {
 
 // siteAsserts: obligations attached (by source text) before an instruction.
 func (ex *Exec) siteAsserts(f *frame, st *State, b *ssa.BasicBlock, ins ssa.Instruction) {
+	ex.siteAssertsIn(f, nil, st, b, ins)
+}
+
+// siteAssertsIn: the site clauses of frame f before instruction ins, which is an instruction of f itself (inner == nil) or of
+// a helper inlined into f (inner): names are resolved in f at the call of the helper, callarg(i) in the helper.
+func (ex *Exec) siteAssertsIn(f, inner *frame, st *State, b *ssa.BasicBlock, ins ssa.Instruction) {
+	if inner != nil {
+		if _, isRet := ins.(*ssa.Return); isRet {
+			return
+		}
+	}
 	switch ins.(type) {
 	case *ssa.Call, *ssa.MapUpdate, *ssa.Go, *ssa.Defer, *ssa.Return:
 	default:
@@ -994,6 +1013,15 @@ func (ex *Exec) siteAsserts(f *frame, st *State, b *ssa.BasicBlock, ins ssa.Inst
 		env := ex.frameEnv(f, st, f.entry)
 		env.siteBlock = b
 		env.siteInstr = ins
+		casePos := ins.Pos()
+		if inner != nil {
+			env.siteBlock = inner.callBlock
+			env.siteInstr = inner.callInstr
+			env.argFrame = inner
+			env.argInstr = ins
+			casePos = inner.callInstr.Pos()
+			ex.note("assertion site \"" + sa.Site + "\" of " + funcName(f.fn) + " found inside the new helper " + funcName(inner.fn) + " (inlined)")
+		}
 		if sa.Mark {
 			// mark[name]: no obligation; the function-local flag "reached this site with the expression true" is set
 			v, err := env.trans(sa.Expr)
@@ -1011,7 +1039,7 @@ func (ex *Exec) siteAsserts(f *frame, st *State, b *ssa.BasicBlock, ins ssa.Inst
 			continue
 		}
 		detail := sa.Label
-		if cs := ex.V.enclosingCase(ins.Pos()); cs != "" {
+		if cs := ex.V.enclosingCase(casePos); cs != "" {
 			detail += "@" + cs
 		}
 		ex.oblige(f, st, "assert", detail, sa.Label, ins.Pos(), v.t, "assertion before "+sa.Site+": "+sa.Text)
@@ -1020,6 +1048,13 @@ func (ex *Exec) siteAsserts(f *frame, st *State, b *ssa.BasicBlock, ins ssa.Inst
 
 // siteMatches: does a site clause attach before this instruction?
 func (V *Verifier) siteMatches(sa *SiteAssert, ins ssa.Instruction) bool {
+	if V.siteMatches1(sa.Site, ins) || (sa.AltSite != "" && V.siteMatches1(sa.AltSite, ins)) {
+		return true
+	}
+	return sa.alt != nil && sa.alt == ins
+}
+
+func (V *Verifier) siteMatches1(site string, ins ssa.Instruction) bool {
 	switch ins.(type) {
 	case *ssa.Call, *ssa.MapUpdate, *ssa.Go, *ssa.Defer, *ssa.Return:
 	default:
@@ -1028,13 +1063,13 @@ func (V *Verifier) siteMatches(sa *SiteAssert, ins ssa.Instruction) bool {
 	if !ins.Pos().IsValid() {
 		return false
 	}
-	if name, ok := strings.CutPrefix(sa.Site, "call:"); ok {
+	if name, ok := strings.CutPrefix(site, "call:"); ok {
 		// at "call:<name>": before every call (go, defer) of a function or method of that name;
 		// at "call:<name>@<case>": only inside that case of a (type) switch
 		name, cs, inCase := strings.Cut(name, "@")
 		return calleeName(ins) == name && (!inCase || V.enclosingCase(ins.Pos()) == cs)
 	}
-	return strings.HasPrefix(V.srcText(ins, ins.Pos()), sa.Site) || (sa.alt != nil && sa.alt == ins)
+	return strings.HasPrefix(V.srcText(ins, ins.Pos()), site)
 }
 
 // resolveSites: a site quoted by source text that matches nothing any more (a renamed local in the argument list, a
@@ -1046,6 +1081,11 @@ func (V *Verifier) resolveSites(fn *ssa.Function, c *Contract) {
 			continue
 		}
 		name := siteCalleeName(sa.Site)
+		if sa.AltSite != "" {
+			if n2 := siteCalleeName(sa.AltSite); n2 != "" {
+				name = n2
+			}
+		}
 		found := false
 		var cands []ssa.Instruction
 		for _, b := range fn.Blocks {
